@@ -51,6 +51,14 @@ Proof.
   pose proof (H S_subquery_count) as H_subquery_count; simpl in H_subquery_count.
   pose proof (H S_foreign_table) as H_foreign_table; simpl in H_foreign_table.
   pose proof (H S_mysql_rollup) as H_mysql_rollup; simpl in H_mysql_rollup.
+  pose proof (H S_hint) as H_hint; simpl in H_hint.
+  pose proof (H S_modifiers) as H_modifiers; simpl in H_modifiers.
+  pose proof (H S_final) as H_final; simpl in H_final.
+  pose proof (H S_sample) as H_sample; simpl in H_sample.
+  pose proof (H S_sample_offset) as H_sample_offset; simpl in H_sample_offset.
+  pose proof (H S_limit_by) as H_limit_by; simpl in H_limit_by.
+  pose proof (H S_distinct_on) as H_distinct_on; simpl in H_distinct_on.
+  pose proof (H S_insert_or_replace) as H_insert_or_replace; simpl in H_insert_or_replace.
   destruct a, b; simpl in *; subst; reflexivity.
 Qed.
 
@@ -89,7 +97,8 @@ Ltac get_all H :=
   get H S_orderbys; get H S_limit; get H S_offset; get H S_distinct; get H S_for_update; get H S_for_update_nowait;
   get H S_for_update_skip_locked; get H S_for_update_of; get H S_force_indexes; get H S_use_indexes; get H S_updates;
   get H S_columns; get H S_values; get H S_replace; get H S_select_into; get H S_subquery_count; get H S_foreign_table;
-  get H S_mysql_rollup.
+  get H S_mysql_rollup; get H S_hint; get H S_modifiers; get H S_final; get H S_sample; get H S_sample_offset;
+  get H S_limit_by; get H S_distinct_on; get H S_insert_or_replace.
 Ltac rew_all := repeat match goal with E : ?a = ?b |- _ => rewrite E; clear E end.
 
 (* outcome of a call = f(slots in deps): same error, or results equal on the written slots *)
